@@ -177,7 +177,7 @@ def _run_tv_one(args):
     return r
 
 
-def run_tv(module, cfg, files, timeout=1500, par=None, extra_env=None):
+def run_tv(module, cfg, files, timeout=1500, par=None, extra_env=None, tolerate_tool_errors=False):
     """Validate recorded traces: one single-worker TLC per file, in parallel."""
     files = [f for f in files if os.path.getsize(f) > 0]
     jobs = [(i, module, cfg, f, timeout, extra_env) for i, f in enumerate(files)]
@@ -186,7 +186,7 @@ def run_tv(module, cfg, files, timeout=1500, par=None, extra_env=None):
         for r in ex.map(_run_tv_one, jobs):
             res.append(r)
     for r in res:
-        if r["tool_error"]:
+        if r["tool_error"] and not tolerate_tool_errors:
             log(r["tool_error"] if r["tool_error"] != "timeout" else "timeout on " + r["file"])
             raise ToolError("trace validation tool failure on %s" % r["file"])
     log("[tv] %s: %d files, %d states, %d rejected, max %.1fs" % (module, len(res), sum(r["states"] for r in res), sum(1 for r in res if not r["accepted"]), max([r["wall_s"] for r in res] or [0])))
